@@ -419,6 +419,7 @@ def fit_scipy(
             xn[i] += 1e-5
             gs.append((nll0 - nll1) / 2e-5)
             print(args_name[i], gs[i], gs0[i])
+        fcn.vm.set_all(xn)  # the last evaluation was at a displaced point
     if standard_complex:
         fcn.vm.standard_complex()
     params = fcn.get_params()  # vm.get_all_dic()
